@@ -248,9 +248,14 @@ func (mp *Pool) Add(t *transaction.Transaction, fee Feer, data ...any) error {
 		mp.lock.Unlock()
 		return err
 	}
+	var (
+		oracleID      uint64
+		hasOracleResp bool
+	)
 	if attrs := t.GetAttributes(transaction.OracleResponseT); len(attrs) != 0 {
-		id := attrs[0].Value.(*transaction.OracleResponse).ID
-		h, ok := mp.oracleResp[id]
+		oracleID = attrs[0].Value.(*transaction.OracleResponse).ID
+		hasOracleResp = true
+		h, ok := mp.oracleResp[oracleID]
 		if ok {
 			if mp.verifiedMap[h].NetworkFee >= t.NetworkFee {
 				mp.lock.Unlock()
@@ -258,7 +263,6 @@ func (mp *Pool) Add(t *transaction.Transaction, fee Feer, data ...any) error {
 			}
 			mp.removeInternal(h)
 		}
-		mp.oracleResp[id] = t.Hash()
 	}
 
 	// Remove conflicting transactions.
@@ -338,6 +342,10 @@ func (mp *Pool) Add(t *transaction.Transaction, fee Feer, data ...any) error {
 		mp.verifiedTxes[n] = pItem
 	}
 	mp.verifiedMap[t.Hash()] = t
+	// Oracle response is tracked only after the transaction is known to fit.
+	if hasOracleResp {
+		mp.oracleResp[oracleID] = t.Hash()
+	}
 	// Add conflicting hashes to the mp.conflicts list.
 	for _, attr := range t.GetAttributes(transaction.ConflictsT) {
 		hash := attr.Value.(*transaction.Conflicts).Hash
